@@ -46,9 +46,7 @@ class UnmanagedRoles:
         # which semaphore is which: the one that receives a permit when an object comes back is the object
         # semaphore (SEM); the one that receives a permit when an object is taken out for good is the size semaphore
         self.SEM = self._sem_called(self.OBJ_DROP, sems, ('add_permits',))
-        self.SIZESEM = self._sem_called(self.TAKE, sems, ('add_permits',))
-        if self.SEM == self.SIZESEM:
-            raise Undecided('return path and take path add permits to the same semaphore')
+        self.SIZESEM = _one([x for x in sems if x != self.SEM], 'the other semaphore')
         # counters through status()
         an = prog.an(self.STATUS)
         self.SIZE = self.AVAIL = None
@@ -168,6 +166,37 @@ class UnmanagedRoles:
                         out.append((blk, n.split('::')[-1], an.resolve_operand(t.args[1]) if len(t.args) > 1 else ''))
                     break
         return out
+
+    def closed_flag_sem(self):
+        """which semaphore the pool's own is_closed() reads ('SEM' / 'SIZESEM' / None)"""
+        for b in self.bodies():
+            if b.name.endswith('PoolInner::is_closed') or (b.name.startswith(self.INNER) and b.name.endswith('::is_closed')):
+                for blk in b.blocks:
+                    w = self.sem_of_call(b, blk.term)
+                    if w:
+                        return w
+        return None
+
+    def add_helper_rechecks_closed(self):
+        """does the add helper decide under the queue lock that the pool is open before it pushes? (fix D9)"""
+        h = self.ADD_HELPER
+        an = self.prog.an(h)
+        gl = [i for i, l in enumerate(h.locals) if l['ty'].startswith('std::sync::MutexGuard<')]
+        for pblk in [x for x, m in self.queue_calls(h) if m == 'push']:
+            for d_ in sorted(an.doms(('normal',)).get(pblk.idx) or ()):
+                sw = h.blocks[d_]
+                if sw.term.kind != 'switch' or sw.term.j.get('dty') != 'bool':
+                    continue
+                src = sources(an, sw.term.discr)
+                tcs = [s[2] for s in src if s[0] == 'call' and (s[1].endswith('is_closed') or s[1].endswith('try_acquire_many'))]
+                if not tcs:
+                    continue
+                arms = dict(sw.term.switch_arms())
+                only_false = pblk.idx in an.reach([arms['false']], ('normal',), avoid=[arms['true']]) and pblk.idx not in an.reach([arms['true']], ('normal',), avoid=[arms['false']])
+                under = all((an.state_at_term(tc) or (0, 0))[0] & sum(1 << g for g in gl) for tc in tcs)
+                if only_false and under:
+                    return True
+        return False
 
     def describe(self):
         return {'U.INNER': self.INNER, 'U.SEM': self.SEM, 'U.SIZESEM': self.SIZESEM, 'U.QUEUE': self.QUEUE, 'U.SIZE': self.SIZE,
